@@ -209,8 +209,9 @@ func (s *APIRegServer) registerBidirectional(w http.ResponseWriter, r *http.Requ
 
 	// Check server's client config -- add server's ClientConf if client is outdated
 	serverClientConf := s.compareClientConfGen(payload.GetRegistrationPayload().GetDecoyListGeneration())
-	if serverClientConf != nil {
+	if serverClientConf != nil && payload.RegistrationPayload != nil {
 		// Replace the payload generation with correct generation from server's client config
+		// (a request without a registration payload is answered with "no C2S body" below)
 		payload.RegistrationPayload.DecoyListGeneration = serverClientConf.Generation
 	}
 
